@@ -23,7 +23,7 @@ for sid in seeds:
             r = subprocess.run([os.path.join(ROOT, 'check'), prop, '--tier', 'quick'], cwd=ROOT, env=env, stdout=subprocess.PIPE, stderr=subprocess.STDOUT)
             lines = [l for l in r.stdout.decode().split('\n') if l.startswith(('VIOLATION', 'UNDECIDED'))]
             out[prop] = dict(rc=r.returncode, lines=[l[:400] for l in lines[:6]])
-        caught = any(v['rc'] == 1 for v in out.values())
+        caught = any(v['rc'] == 1 and any(l.startswith('VIOLATION') for l in v['lines']) for v in out.values())
         results[sid] = dict(property=meta['property'], caught=caught, checks=out)
         print(sid, 'CAUGHT' if caught else 'MISSED', {k: v['rc'] for k, v in out.items()}, (out[meta['property']]['lines'] or [''])[0][:230])
     finally:
